@@ -473,3 +473,297 @@ theorem rename_parsed {F : Fold} {b b' : Book} {i : Nat} {new : String}
       exact resolve_rewrite' F hinj hlt' hnew b.namesWithScope ws.name hctx hctx' f (hgws f hf)
 
 end IronCalc.Book
+
+namespace IronCalc.Book
+open IronCalc.Formula
+
+theorem bind_idAt_eq_idByName (sheets : List Sheet) (n : String) :
+    (sheetIndex (sheets.map (·.name)) n).bind (idAt sheets) = idByName sheets n := by
+  induction sheets with
+  | nil => rfl
+  | cons a as ih =>
+    unfold idByName at ih ⊢
+    simp only [List.map_cons, sheetIndex, List.find?_cons]
+    by_cases h : a.name = n
+    · simp [h, idAt]
+    · have h' : (a.name == n) = false := by simpa using h
+      simp only [h, if_false, h']
+      rw [← ih]
+      cases sheetIndex (as.map (·.name)) n with
+      | none => rfl
+      | some m => simp [idAt]
+
+theorem refId_eq (sheets : List Sheet) (ctx : String) (sn : Option String) :
+    refId sheets ctx sn = idByName sheets (sn.getD ctx) := by
+  unfold refId resolveRef
+  cases sn <;> simp [bind_idAt_eq_idByName]
+
+/-- membership form of name uniqueness -/
+def UniqueMem (l : List Sheet) : Prop := ∀ s t, s ∈ l → t ∈ l → s.name = t.name → s = t
+
+theorem uniqueMem_of_nodupUp (up : String → String) {l : List Sheet}
+    (h : ((l.map (·.name)).map up).Nodup) : UniqueMem l := by
+  intro s t hs ht hst
+  obtain ⟨j, hj⟩ := List.mem_iff_getElem?.mp hs
+  obtain ⟨k, hk⟩ := List.mem_iff_getElem?.mp ht
+  have hj' : (l.map (·.name))[j]? = some s.name := by simp [hj]
+  have hk' : (l.map (·.name))[k]? = some t.name := by simp [hk]
+  have := injUp_of_nodup up h j k s.name t.name hj' hk' (by rw [hst])
+  subst this
+  rw [hj] at hk; exact Option.some.inj hk
+
+theorem find_of_mem {l : List Sheet} (hU : UniqueMem l) {s : Sheet} (hs : s ∈ l) {n : String}
+    (hn : s.name = n) : l.find? (fun x => x.name == n) = some s := by
+  induction l with
+  | nil => cases hs
+  | cons a as ih =>
+    rw [List.find?_cons]
+    by_cases h : a.name = n
+    · have : a = s := hU a s (by simp) hs (by rw [h, hn])
+      subst this
+      simp [hn]
+    · have h' : (a.name == n) = false := by simpa using h
+      rw [h']
+      have hsa : s ≠ a := by intro e; subst e; exact h hn
+      have hs' : s ∈ as := by
+        cases hs with
+        | head => exact absurd rfl hsa
+        | tail _ h => exact h
+      exact ih (fun x y hx hy => hU x y (List.mem_cons_of_mem _ hx) (List.mem_cons_of_mem _ hy)) hs'
+
+theorem perm_cons_eraseIdx' {α : Type} (l : List α) (i : Nat) (h : i < l.length) :
+    (l[i] :: l.eraseIdx i).Perm l := by
+  rw [List.eraseIdx_eq_take_drop_succ]
+  have e : l = l.take i ++ l[i] :: l.drop (i+1) := by
+    rw [List.getElem_cons_drop, List.take_append_drop]
+  conv => rhs; rw [e]
+  exact List.perm_middle.symm
+
+/-- resolution by name does not depend on the order of the worksheet vector -/
+theorem idByName_perm {s s' : List Sheet} (hp : s'.Perm s) (hU : UniqueMem s) (n : String) :
+    idByName s' n = idByName s n := by
+  have hU' : UniqueMem s' := fun x y hx hy => hU x y (hp.mem_iff.mp hx) (hp.mem_iff.mp hy)
+  unfold idByName
+  cases h : s.find? (fun x => x.name == n) with
+  | some x =>
+    have hx : x ∈ s := List.mem_of_find?_eq_some h
+    have hn : x.name = n := by simpa using List.find?_some h
+    rw [find_of_mem hU' (hp.mem_iff.mpr hx) hn]
+  | none =>
+    have : s'.find? (fun x => x.name == n) = none := by
+      rw [List.find?_eq_none] at h ⊢
+      intro x hx; exact h x (hp.mem_iff.mp hx)
+    rw [this]
+
+/-- a sheet that is still in the (smaller) vector is found there iff it was found before;
+    names of removed sheets stop resolving -/
+theorem idByName_sublist_mem {s s' : List Sheet} (hsub : ∀ x, x ∈ s' → x ∈ s) (hU : UniqueMem s)
+    (n : String) {x : Sheet} (hx : x ∈ s') (hn : x.name = n) :
+    idByName s' n = idByName s n := by
+  have hU' : UniqueMem s' := fun a c ha hc => hU a c (hsub a ha) (hsub c hc)
+  unfold idByName
+  rw [find_of_mem hU' hx hn, find_of_mem hU (hsub x hx) hn]
+
+theorem moveSheet_perm {b b' : Book} {i j : Nat} (h : moveSheet b i j = .ok b') :
+    b'.sheets.Perm b.sheets ∧ b'.names = b.names := by
+  unfold moveSheet at h
+  split at h
+  · cases h
+  · split at h
+    · cases h
+    · split at h
+      · cases h; exact ⟨List.Perm.refl _, rfl⟩
+      · rename_i hi hj hij
+        split at h
+        · cases h
+        · rename_i ws hws
+          cases h
+          refine ⟨?_, rfl⟩
+          have hlt : i < b.sheets.length := by omega
+          have hjl : j ≤ (b.sheets.eraseIdx i).length := by
+            rw [List.length_eraseIdx]; simp [hlt]; omega
+          refine (List.perm_insertIdx ws _ hjl).trans ?_
+          have hget : b.sheets[i] = ws := by
+            have := List.getElem?_eq_some_iff.mp hws
+            exact this.2
+          rw [← hget]
+          exact perm_cons_eraseIdx' _ _ hlt
+end IronCalc.Book
+
+namespace IronCalc.Book
+open IronCalc.Formula
+
+theorem nodup_getElem?_inj {α : Type} {l : List α} (h : l.Nodup) :
+    ∀ (j k : Nat) (a : α), l[j]? = some a → l[k]? = some a → j = k := by
+  induction l with
+  | nil => intro j k a hj; simp at hj
+  | cons s ss ih =>
+    rw [List.nodup_cons] at h
+    obtain ⟨hs, hn⟩ := h
+    intro j k a hj hk
+    cases j with
+    | zero =>
+      cases k with
+      | zero => rfl
+      | succ k =>
+        simp at hj hk; subst hj
+        exact absurd (List.mem_of_getElem? hk) hs
+    | succ j =>
+      cases k with
+      | zero =>
+        simp at hj hk; subst hk
+        exact absurd (List.mem_of_getElem? hj) hs
+      | succ k =>
+        simp at hj hk
+        rw [ih hn j k a hj hk]
+
+theorem findDupName_spec (F : Fold) (ex : List String) (src : String) (fuel index : Nat) {c : String}
+    (h : findDupName F ex src fuel index = some c) :
+    isValidSheetName c = true ∧ F.up c ∉ ex := by
+  induction fuel generalizing index with
+  | zero => cases h
+  | succ fuel ih =>
+    unfold findDupName at h
+    simp only at h
+    split at h
+    · rename_i hc
+      cases h
+      simp only [Bool.and_eq_true, Bool.not_eq_true', ] at hc
+      refine ⟨hc.1, ?_⟩
+      intro hmem
+      have := List.contains_iff_mem.mpr hmem
+      rw [this] at hc; cases hc.2
+    · exact ih _ h
+
+theorem duplicateSheet_inv {fixed : Bool} {F : Fold} {b b' : Book} {i : Nat} {newName : String}
+    (h : duplicateSheet fixed F b i = .ok (b', newName)) :
+    ∃ src, b.sheets[i]? = some src ∧
+      isValidSheetName newName = true ∧ F.up newName ∉ b.sheetNames.map F.up ∧
+      b'.sheets = b.sheets.insertIdx (i + 1)
+        { name := newName, id := newSheetId b,
+          formulas := src.formulas.map (rewriteFormula fixed F b i newName src.name) } := by
+  unfold duplicateSheet at h
+  split at h
+  · cases h
+  · rename_i src hsrc
+    split at h
+    · cases h
+    · rename_i nn hnn
+      simp only [Except.ok.injEq, Prod.mk.injEq] at h
+      obtain ⟨hb, hn⟩ := h
+      subst hn
+      obtain ⟨hv, hfresh⟩ := findDupName_spec F _ _ _ _ hnn
+      exact ⟨src, hsrc, hv, hfresh, by rw [← hb]⟩
+
+/-- the id given to a new sheet is larger than every id in use -/
+theorem newSheetId_gt (b : Book) : ∀ s ∈ b.sheets, s.id < newSheetId b := by
+  unfold newSheetId
+  have key : ∀ (l : List Sheet) (m : Nat), m ≤ l.foldl (fun m s => max m s.id) m ∧
+      ∀ s ∈ l, s.id ≤ l.foldl (fun m s => max m s.id) m := by
+    intro l
+    induction l with
+    | nil => intro m; exact ⟨Nat.le_refl _, by intro s hs; cases hs⟩
+    | cons a as ih =>
+      intro m
+      simp only [List.foldl_cons]
+      obtain ⟨h1, h2⟩ := ih (max m a.id)
+      refine ⟨by omega, ?_⟩
+      intro s hs
+      cases hs with
+      | head => omega
+      | tail _ h => exact h2 s h
+  intro s hs
+  have := (key b.sheets 1).2 s hs
+  omega
+
+/-- per reference: what the copy's reference denotes in the new workbook is what the source's
+    reference denotes in the old one, with the source sheet replaced by the copy -/
+theorem dup_ref {F : Fold} {sheets : List Sheet} (hU : ((sheets.map (·.name)).map F.up).Nodup)
+    (hI : (sheets.map (·.id)).Nodup)
+    {i : Nat} {src copy : Sheet} (hsrc : sheets[i]? = some src)
+    (hfresh : F.up copy.name ∉ (sheets.map (·.name)).map F.up)
+    (k : RefKind) (sn : Option String) (hg : GhostOK (sheets.map (·.name)) copy.name sn) :
+    refId (sheets.insertIdx (i + 1) copy) copy.name
+        (renameSheetRef true i copy.name k (resolveRef (sheets.map (·.name)) src.name sn)).name
+      = (refId sheets src.name sn).map (fun d => if d = src.id then copy.id else d) := by
+  have hlt : i < sheets.length := (List.getElem?_eq_some_iff.mp hsrc).1
+  have hle : i + 1 ≤ sheets.length := hlt
+  have hmem : ∀ x, x ∈ sheets.insertIdx (i + 1) copy ↔ x = copy ∨ x ∈ sheets :=
+    fun x => List.mem_insertIdx hle
+  have hUm : UniqueMem sheets := uniqueMem_of_nodupUp F.up hU
+  have hne : ∀ x ∈ sheets, x.name ≠ copy.name := by
+    intro x hx e
+    apply hfresh
+    rw [← e]
+    exact List.mem_map.mpr ⟨x.name, List.mem_map.mpr ⟨x, hx, rfl⟩, rfl⟩
+  have hUm' : UniqueMem (sheets.insertIdx (i + 1) copy) := by
+    intro x y hx hy e
+    rcases (hmem x).mp hx with rfl | hx' <;> rcases (hmem y).mp hy with rfl | hy'
+    · rfl
+    · exact absurd e.symm (hne y hy')
+    · exact absurd e (hne x hx')
+    · exact hUm x y hx' hy' e
+  have hsrcmem : src ∈ sheets := List.mem_of_getElem? hsrc
+  have hcopy : idByName (sheets.insertIdx (i + 1) copy) copy.name = some copy.id := by
+    unfold idByName; rw [find_of_mem hUm' ((hmem copy).mpr (Or.inl rfl)) rfl]; rfl
+  have hold : ∀ x ∈ sheets, idByName (sheets.insertIdx (i + 1) copy) x.name = some x.id ∧
+      idByName sheets x.name = some x.id := by
+    intro x hx
+    unfold idByName
+    rw [find_of_mem hUm' ((hmem x).mpr (Or.inr hx)) rfl, find_of_mem hUm hx rfl]
+    exact ⟨rfl, rfl⟩
+  have hinj : Inj (sheets.map (·.name)) := inj_of_nodupUp F.up hU
+  have hname := renameSheetRef_name i copy.name k (resolveRef (sheets.map (·.name)) src.name sn)
+  rw [refId_eq, refId_eq, hname]
+  cases sn with
+  | none =>
+    simp only [resolveRef, Option.isSome_none, Bool.false_eq_true, and_false, if_false, Option.getD_none]
+    rw [hcopy, (hold src hsrcmem).2]; simp
+  | some n =>
+    simp only [resolveRef, Option.isSome_some, and_true, Option.getD_some]
+    cases hres : sheetIndex (sheets.map (·.name)) n with
+    | none =>
+      simp only [reduceCtorEq, if_false, Option.getD_some]
+      have hno : ∀ x ∈ sheets, x.name ≠ n := by
+        intro x hx e
+        obtain ⟨j, hj⟩ := List.mem_iff_getElem?.mp hx
+        exact sheetIndex_none_get hres j (by simp [hj, e])
+      have h1 : idByName sheets n = none := by
+        unfold idByName
+        have : sheets.find? (fun s => s.name == n) = none := by
+          rw [List.find?_eq_none]; intro x hx; simpa using hno x hx
+        rw [this]; rfl
+      have h2 : idByName (sheets.insertIdx (i + 1) copy) n = none := by
+        unfold idByName
+        have : (sheets.insertIdx (i + 1) copy).find? (fun s => s.name == n) = none := by
+          rw [List.find?_eq_none]; intro x hx
+          rcases (hmem x).mp hx with rfl | hx'
+          · have := hg n rfl hres; simpa using fun e => this e.symm
+          · simpa using hno x hx'
+        rw [this]; rfl
+      rw [h1, h2]; rfl
+    | some j =>
+      have hget := sheetIndex_some_get hres
+      rw [List.getElem?_map] at hget
+      cases hx : sheets[j]? with
+      | none => simp [hx] at hget
+      | some x =>
+        simp [hx] at hget
+        have hxm : x ∈ sheets := List.mem_of_getElem? hx
+        subst hget
+        by_cases hji : j = i
+        · subst hji
+          rw [hsrc] at hx; cases hx
+          simp only [if_true, Option.getD_some]
+          rw [hcopy, (hold src hsrcmem).2]; simp
+        · have : ¬ (some j = some i) := by simpa using hji
+          simp only [this, if_false, Option.getD_some]
+          rw [(hold x hxm).1, (hold x hxm).2]
+          have hid : x.id ≠ src.id := by
+            intro e
+            have h1 : (sheets.map (·.id))[j]? = some x.id := by simp [hx]
+            have h2 : (sheets.map (·.id))[i]? = some x.id := by simp [hsrc, e]
+            exact hji (nodup_getElem?_inj hI j i x.id h1 h2)
+          simp [hid]
+
+end IronCalc.Book
